@@ -515,10 +515,19 @@ def gen_history(rng, nticks, cov, malformed=False):
                 res = [failed()]
             elif k < 0.56:
                 # (a collecting invocation that returns None - or, less often, an event - on an incomplete set)
-                res = [AddCollectedEvent(event_id=rng.choice(["default", "x"]), event=ip.event),
-                       StepWorkerResult(result=None if rng.random() < 0.65 else newev())]
+                bid = rng.choice(["default", "x"])
+                # (prefer an invocation whose snapshot of that buffer is stale, when there is one)
+                cands = [(n2, ip2, b2) for (n2, ip2) in ips for b2 in ("default", "x")
+                         if len(s.workers[n2].collected_events.get(b2, [])) > len(ip2.shared_state.collected_events.get(b2, []))]
+                if cands and rng.random() < 0.6:
+                    nm, ip, bid = rng.choice(cands)
+                stale = len(s.workers[nm].collected_events.get(bid, [])) > len(ip.shared_state.collected_events.get(bid, []))
+                res = [AddCollectedEvent(event_id=bid, event=ip.event),
+                       StepWorkerResult(result=None if rng.random() < (0.35 if stale else 0.7) else newev())]
                 if res[1].result is not None:
                     cov.hit("collect_with_returned_event")
+                    if stale:
+                        cov.hit("stale_collect_with_returned_event")
             elif k < 0.62:
                 res = [DeleteCollectedEvent(event_id=rng.choice(["default", "x"])), out()]
             elif k < 0.74:
